@@ -10,23 +10,28 @@ Eqs(n) == [k \in 1..n |-> 61]
 Closer(n) == <<93>> \o Eqs(n) \o <<93>>
 RECURSIVE Level(_, _)
 Level(t, n) == IF ContainsSeq(t, Closer(n)) THEN Level(t, n + 1) ELSE n
-\* the comment darklua writes for text t (bytes): empty text -> nothing; text with a newline -> long comment whose
-\* level avoids every closer inside the text; otherwise a line comment
+\* the two ways a text without line feed escapes a line comment
+OpensLongBracket(t) == ~HasByte(t, 10) /\ LongOpen(t, 1) >= 0
+HasLoneCR(t) == ~HasByte(t, 10) /\ HasByte(t, 13)
+LongForm(t) == LET n == Level(t, 0) IN <<45, 45, 91>> \o Eqs(n) \o <<91, 10>> \o t \o <<10>> \o Closer(n)
+\* the comment darklua writes for text t (bytes): empty text -> nothing; a text with a line feed, a carriage return or
+\* a leading long-bracket opener -> long comment whose level avoids every closer inside the text; otherwise a line comment
 CommentOf(t) ==
   IF t = <<>> THEN <<>>
-  ELSE IF HasByte(t, 10) THEN LET n == Level(t, 0) IN <<45, 45, 91>> \o Eqs(n) \o <<91, 10>> \o t \o <<10>> \o Closer(n)
+  ELSE IF HasByte(t, 10) \/ HasByte(t, 13) \/ OpensLongBracket(t) THEN LongForm(t)
   ELSE <<45, 45>> \o t
+\* DevLineCommentUnchecked (the code before the `fix:` commit): only a line feed selects the long form
+CommentOfUnchecked(t) ==
+  IF t = <<>> THEN <<>> ELSE IF HasByte(t, 10) THEN LongForm(t) ELSE <<45, 45>> \o t
 
 Probe == <<114, 101, 116, 117, 114, 110, 32, 49>>          \* "return 1"
-\* Safe(t): comment, newline, code  lexes as  one comment token followed by the code's tokens
-Safe(t) ==
-  LET c == CommentOf(t) IN
+\* SafeC(c): comment c, newline, code  lexes as  one comment token followed by the code's tokens
+SafeC(c) ==
   c = <<>> \/
   LET r == Lex(c \o <<10>> \o Probe, TRUE) IN
   /\ r.ok /\ Len(r.toks) = 3
   /\ r.toks[1].k = "comment" /\ r.toks[1].v = c
   /\ r.toks[2].v = <<114, 101, 116, 117, 114, 110>> /\ r.toks[3].v = <<49>>
-\* the two ways a text escapes its comment (triggers of the open finding F-C18-a)
-OpensLongBracket(t) == ~HasByte(t, 10) /\ LongOpen(t, 1) >= 0
-HasLoneCR(t) == ~HasByte(t, 10) /\ HasByte(t, 13)
+Safe(t) == SafeC(CommentOf(t))
+SafeUnchecked(t) == SafeC(CommentOfUnchecked(t))
 =============================================================================
